@@ -114,7 +114,8 @@ def replay(traces, path, tid0):
                 srcs = [w.tw.obj[x] for x in last["srcs"]]
                 sens = [w.tw.obj[x] for x in last["sens"]]
                 fn = {"B": w.magpy.getB, "H": w.magpy.getH}[e["field"]]
-                ev = {"tid": tid, "call": e, "form": "system", "outcome": "ok", "shape": [], "den": [1] * len(sens), "out": [], "ok_reshape": False, "kappa": {}}
+                ev = {"tid": tid, "call": e, "form": "system", "outcome": "ok", "shape": [], "den": [1] * len(sens), "out": [], "ok_reshape": False, "kappa": {},
+                      "stages": {"has": False, "computed": [], "reduced": [], "rotated": [], "aggregated": []}}
                 try:
                     out = fn(srcs if len(srcs) > 1 else srcs[0], sens if len(sens) > 1 else sens[0], sumup=e["sumup"], squeeze=False)
                     ev["shape"] = [int(x) for x in np.shape(out)]
